@@ -44,7 +44,7 @@ func init() {
 }
 
 func c14Generate(c *mon.Ctx) {
-	concBatches(c, c.N(6, 300), func(seed uint64) any { return &c14Case{Conc: seed} })
+	concBatches(c, c.NConc(6, 300), func(seed uint64) any { return &c14Case{Conc: seed} })
 
 	n := oracle.N
 	emit := func(v *big.Int, class string) {
@@ -101,7 +101,7 @@ func c14Generate(c *mon.Ctx) {
 	})
 
 	// and again at the end of the shard, when the process has a history behind it
-	concBatches(c, c.N(4, 200), func(seed uint64) any { return &c14Case{Conc: seed + 50000} })
+	concBatches(c, c.NConc(4, 200), func(seed uint64) any { return &c14Case{Conc: seed + 50000} })
 }
 
 func c14Run(c *mon.Ctx, csAny any) {
